@@ -17,6 +17,7 @@ import (
 	"bufio"
 	"fmt"
 	"net"
+	"net/url"
 	"runtime"
 	"strings"
 	"sync"
@@ -24,6 +25,7 @@ import (
 	"time"
 
 	"github.com/fluffle/goirc/client"
+	"golang.org/x/net/proxy"
 )
 
 func init() {
@@ -56,8 +58,31 @@ func c18Run(in Fields) Fields {
 		return c18Pong(in)
 	case "pings":
 		return c18Pings(in)
+	case "busy":
+		return c18Busy(in)
 	}
 	return F("<<BAD-KIND>>")
+}
+
+// a proxy dialer WITHOUT DialContext: dialProxy then takes its conn.proxyDialer.Dial branch
+type c18DialOnly struct{ key string }
+
+func (d c18DialOnly) Dial(network, addr string) (net.Conn, error) {
+	return memDialer{key: d.key}.Dial(network, addr)
+}
+
+var c18Once sync.Once
+
+func c18ProxyURL(ms *MemServer, variant string) string {
+	if variant != "dial" {
+		return ms.URL()
+	}
+	c18Once.Do(func() {
+		proxy.RegisterDialerType("c18dial", func(u *url.URL, _ proxy.Dialer) (proxy.Dialer, error) {
+			return c18DialOnly{key: u.Host}, nil
+		})
+	})
+	return "c18dial://" + ms.Key
 }
 
 func c18Server() *MemServer {
@@ -93,7 +118,7 @@ func c18Reg(in Fields) Fields {
 	cfg := client.NewConfig(nick, ident, name)
 	cfg.Server = server
 	cfg.Pass = pass
-	cfg.Proxy = ms.URL()
+	cfg.Proxy = c18ProxyURL(ms, in.S(9))
 	cfg.Flood = true
 	cfg.PingFreq = time.Duration(freq)
 	cfg.EnableCapabilityNegotiation = neg
@@ -230,6 +255,82 @@ func c18Pong(in Fields) Fields {
 	return obs
 }
 
+// ---------- busy ----------
+// a foreground handler blocks the event loop; meanwhile the server writes one PING per token (more
+// than conn.in holds), then the handler is released: every PING must be answered, in order
+func c18Busy(in Fields) Fields {
+	n := in.I(1)
+	ms := c18Server()
+	defer c18Drop(ms)
+	cfg := client.NewConfig("vbot", "vident", "v name")
+	cfg.Server = "irc.example"
+	cfg.Proxy = ms.URL()
+	cfg.Flood = true
+	cfg.PingFreq = 0
+	conn := client.Client(cfg)
+	entered := make(chan struct{}, 4)
+	release := make(chan struct{})
+	conn.HandleFunc("PRIVMSG", func(*client.Conn, *client.Line) {
+		entered <- struct{}{}
+		<-release
+	})
+	errc := make(chan error, 1)
+	go func() { errc <- conn.Connect() }()
+	var srv net.Conn
+	select {
+	case srv = <-ms.Conns:
+	case <-time.After(10 * time.Second):
+		return F("<<NO-CONNECT>>")
+	}
+	if err := <-errc; err != nil {
+		return F("<<CONNECT-ERROR>>", err.Error())
+	}
+	var sb strings.Builder
+	sb.WriteString(":x!y@z PRIVMSG vbot :block\r\n")
+	for k := 0; k < n; k++ {
+		sb.WriteString("PING :" + in.S(2+k) + "\r\n")
+	}
+	sb.WriteString("PING :~~end~~\r\n")
+	go func() {
+		srv.SetWriteDeadline(time.Now().Add(20 * time.Second))
+		srv.Write([]byte(sb.String()))
+	}()
+	rd := bufio.NewReaderSize(srv, 1<<16)
+	pongs := []string{}
+	got := make(chan string, 1024)
+	go func() {
+		srv.SetReadDeadline(time.Now().Add(20 * time.Second))
+		for {
+			s, err := rd.ReadString('\n')
+			if err != nil {
+				got <- "PONG <<NO-END>>" + s
+				close(got)
+				return
+			}
+			s = strings.TrimSuffix(s, "\r\n")
+			if s == "PONG :~~end~~" {
+				close(got)
+				return
+			}
+			if s == "PONG" || strings.HasPrefix(s, "PONG ") {
+				got <- s
+			}
+		}
+	}()
+	select {
+	case <-entered:
+	case <-time.After(10 * time.Second):
+		pongs = append(pongs, "PONG <<HANDLER-NOT-ENTERED>>")
+	}
+	time.Sleep(60 * time.Millisecond) // let recv fill the input queue and block behind it
+	close(release)
+	for s := range got {
+		pongs = append(pongs, s)
+	}
+	c18Close(srv, conn)
+	return F(len(pongs), pongs)
+}
+
 // ---------- pings ----------
 func c18Pings(in Fields) Fields {
 	var freq int64
@@ -296,9 +397,14 @@ func c18Class(in Fields) string {
 		} else {
 			cls += ":noport"
 		}
+		if in.S(9) == "dial" {
+			cls += ":dial-only"
+		}
 		return cls
 	case "pong":
 		return "pong"
+	case "busy":
+		return "busy"
 	case "pings":
 		var freq int64
 		fmt.Sscanf(in.S(1), "%d", &freq)
@@ -315,7 +421,7 @@ func c18Class(in Fields) string {
 
 // ---------- generation ----------
 func c18RegInput(nick, ident, name, pass string, neg, ssl bool, server string, freq int64) Fields {
-	return F("reg", nick, ident, name, pass, neg, ssl, server, freq)
+	return F("reg", nick, ident, name, pass, neg, ssl, server, freq, "ctx")
 }
 
 var c18TokAlpha = []byte("abcdefghijklmnopqrstuvwxyzABCXYZ0123456789 :!@#$%^&*()-_=+[]{};'\",.<>/?\\|`~\x01\x7f\x80\xfe\xff\t")
@@ -413,6 +519,21 @@ func c18Gen(r *Rand, tier string, scale int, emit func(in Fields)) {
 			}
 		}
 	}
+	// the same addresses through a proxy dialer that has no DialContext (dialProxy's other branch)
+	for _, server := range servers {
+		for _, ssl := range []bool{false, true} {
+			for _, neg := range []bool{false, true} {
+				in := c18RegInput("vbot", "vident", "v name", "pw", neg, ssl, server, 0)
+				in[9] = []byte("dial")
+				ins = append(ins, in)
+			}
+		}
+	}
+	for _, server := range []string{"h", "[::1]", "::1", "host:"} {
+		in := c18RegInput("vbot", "vident", "v name", "", false, false, server, 0)
+		in[9] = []byte("dial")
+		ins = append(ins, in)
+	}
 	// odd servers and odd fields (IPv6 literals are outside the claim: agreement with the model only)
 	for _, server := range []string{"::1", "[::1]", "[fe80::1%eth0]", "[fe80::1%eth0]:6667", "host:", ":6667", "a:b:c", "host]:1", "[host", "h", "irc.example:ircd", "x y"} {
 		for _, ssl := range []bool{false, true} {
@@ -431,6 +552,18 @@ func c18Gen(r *Rand, tier string, scale int, emit func(in Fields)) {
 	}
 	for i := 0; i < sessions; i++ {
 		ins = append(ins, c18PongCase(r.Fork(), 40))
+	}
+	// 2b. busy: 40 (and 31..34, 64, 100) PINGs while a foreground handler blocks the event loop
+	for _, n := range []int{40, 40, 31, 32, 33, 34, 64, 100} {
+		f := F("busy", n)
+		for k := 0; k < n; k++ {
+			t := fmt.Sprintf("b%d-%d", len(ins), k)
+			if k%7 == 3 {
+				t = c18Token(r)
+			}
+			f = append(f, []byte(t))
+		}
+		ins = append(ins, f)
 	}
 	// 3. pings
 	reps := 2
